@@ -122,15 +122,12 @@ def _strip_sites(f: FuncInfo):
 def _copy_classes(f: FuncInfo) -> Dict[str, Set[str]]:
     """names connected by plain copies `a = b` (parameter bindings of helpers analysed in place, renamed locals)"""
     cls: Dict[str, Set[str]] = {}
-    for n in ast.walk(f.node):
-        if isinstance(n, (ast.Assign, ast.AnnAssign)) and isinstance(n.value, ast.Name):
-            tgts = n.targets if isinstance(n, ast.Assign) else [n.target]
-            for t in tgts:
-                if isinstance(t, ast.Name):
-                    a, b = cls.setdefault(t.id, {t.id}), cls.setdefault(n.value.id, {n.value.id})
-                    u = a | b
-                    for x in u:
-                        cls[x] = u
+    for name, v, _st in C.simple_bindings(f.node):
+        if isinstance(v, ast.Name):
+            a, b = cls.setdefault(name, {name}), cls.setdefault(v.id, {v.id})
+            u = a | b
+            for x in u:
+                cls[x] = u
     return cls
 
 
@@ -287,12 +284,7 @@ def rule_polarity(repo: Repo, rid: str = "C01.polarity") -> RuleResult:
             if not calls and not adds:
                 continue
             # heads: X[0] or a local alias of it (head = X[0])
-            head_alias: Set[str] = set()
-            for n in ast.walk(f.node):
-                if isinstance(n, (ast.Assign, ast.AnnAssign)) and n.value is not None and L.subscript0_of(n.value) is not None:
-                    for t in (n.targets if isinstance(n, ast.Assign) else [n.target]):
-                        if isinstance(t, ast.Name):
-                            head_alias.add(t.id)
+            head_alias: Set[str] = {name for name, v, _st in C.simple_bindings(f.node) if L.subscript0_of(v) is not None}
 
             def is_head(e) -> bool:
                 return L.subscript0_of(e) is not None or (isinstance(e, ast.Name) and e.id in head_alias)
@@ -684,7 +676,15 @@ def rule_leftover(repo: Repo, rid: str, specs: List[str]) -> RuleResult:
             while g.loop_of.get(top) is not None:
                 top = g.loop_of[top]
             after = C.reachable_from(g, top, follow=lambda a, b, l: not (a == top and l == "iter"))
-            inloop = C.reachable_from(g, top, follow=lambda a, b, l: not (a == top and l == "done")) - {top}
+            # the statements of the loop (syntactically: a `break` leaves the loop, what follows it is not "in the loop")
+            inloop = set()
+            for x in ast.walk(g.stmt[top]):
+                if isinstance(x, (ast.stmt, ast.ExceptHandler)) and x is not g.stmt[top]:
+                    nx = g.node_of(x)
+                    if nx is not None:
+                        inloop.add(nx)
+            after = after | {m for n_ in inloop for m, _l in g.succ[n_] if m not in inloop and m != top}
+            after = set().union(*[C.reachable_from(g, a_) for a_ in after]) if after else after
             use_nodes = set()
             for n in after - inloop - {top}:
                 st = g.stmt[n]
